@@ -144,6 +144,7 @@ package pub
 //@ [C10] ensures created_201: result0 && result1 == nil && libWrote == 1 && b.enableSocialProtocol && !typeUnknown && !reqMissing ==> status == 201 && sentHdr["Location"] == str(newId)
 //@ [C10] ensures library_status: libWrote == 1 ==> status == 405 || status == 400 || status == 201
 //@ [C03] ensures no_hidden_payload: leak == old(leak)
+//@ modifies gDeliverable, gOther
 
 //@ func (*pub.baseActor).PostOutbox
 //@ params b, c, w, r
@@ -160,6 +161,7 @@ package pub
 //@ [C10] ensures one_status: result0 && result1 == nil ==> wrote == 1
 //@ modifies $db, authed, cleared, typeUnknown, lacksId, lastBlocked, reqMissing, newId, wrote, libWrote, status, sentHdr, bodyWrites, hdr, bufstr, H:net/url.URL.Host, H:net/url.URL.Scheme, A:Int, A:Iface, nSetOutbox, nDeliver, nNewID, actIdTick, snapV, snapP, snapIRI, leak, gDoc, gActWit
 //@ [C03] ensures no_hidden_payload: leak == old(leak)
+//@ modifies gDeliverable, gOther
 
 //@ func (*pub.baseActor).GetInbox
 //@ params b, c, w, r
@@ -231,6 +233,9 @@ package pub
 //@ [C05] at call pub.DelegateActor.PostOutbox#1: assume!post id_stable: activity.GetJSONLDId() == old(activity.GetJSONLDId()) && activity.GetJSONLDId().Get() == old(activity.GetJSONLDId().Get())
 //@ [C05] at call pub.DelegateActor.Deliver#1: assume!post id_stable: activity.GetJSONLDId() == old(activity.GetJSONLDId()) && activity.GetJSONLDId().Get() == old(activity.GetJSONLDId().Get())
 //@ [C03] ensures no_hidden_payload: leak == old(leak)
+//@ modifies gDeliverable, gOther
+//@ [C16] at call pub.DelegateActor.PostOutbox#1: ghost gDeliverable = $res0
+//@ [C16] ensures undeliverable_is_never_handed_to_delivery: !gDeliverable ==> nDeliver == old(nDeliver)
 
 //@ func (*pub.baseActorFederating).Send
 //@ params b, c, outbox, t
@@ -244,6 +249,7 @@ package pub
 //@ [C05] ensures accepted_is_listed_once: result1 == nil ==> nSetOutbox == old(nSetOutbox) + 1
 //@ [C05] ensures delivery_implies_listed_once: nDeliver != old(nDeliver) ==> nSetOutbox == old(nSetOutbox) + 1
 //@ [C03] ensures no_hidden_payload: leak == old(leak)
+//@ modifies gDeliverable, gOther
 
 // ---------------------------------------------------------------- side_effect_actor.go
 //@ func (*pub.sideEffectActor).AuthenticatePostInbox
@@ -378,9 +384,13 @@ package pub
 //@ [C11] requires has_id: activity.GetJSONLDId() != nil
 //@ [C11] requires a.clock != nil
 //@ [C11] at call (streams.TypeResolver).Resolve#1: assume!post id_stable: activity.GetJSONLDId() == old(activity.GetJSONLDId())
-//@ [C05] ensures stored_and_listed_once: err == nil ==> nSetOutbox == old(nSetOutbox) + 1
+//@ [C05,C16] ensures stored_and_listed_once: err == nil ==> nSetOutbox == old(nSetOutbox) + 1
 //@ [C05] ensures at_most_once: nSetOutbox <= old(nSetOutbox) + 1
 //@ [C05] ensures nothing_delivered: nDeliver == old(nDeliver)
+//@ modifies gOther
+//@ [C16] at call pub.SocialProtocol.SocialCallbacks#1: ghost gOther = $res1
+//@ [C16] ensures block_is_stored_but_not_deliverable: err == nil && a.c2s != nil && old(activity.GetTypeName() == "Block" && implements(activity, "streams/vocab.ActivityStreamsBlock")) && !overrides(gOther, "streams/vocab.ActivityStreamsBlock") ==> !deliverable && nSetOutbox == old(nSetOutbox) + 1
+//@ [C16] ensures nothing_delivered_by_the_side_effects: nDeliver == old(nDeliver)
 
 //@ func (*pub.sideEffectActor).AddNewIDs
 //@ params a, c, activity
@@ -442,7 +452,7 @@ package pub
 //@ [C05] at call streams/vocab.ActivityStreamsOrderedItemsProperty.PrependIRI#1: ghost snapP = $arg0
 //@ [C05] at call streams/vocab.ActivityStreamsOrderedItemsProperty.PrependIRI#1: ghost snapIRI = $arg1
 //@ [C05] at call pub.Database.SetOutbox#1: assert id_at_front_once: outbox.GetActivityStreamsOrderedItems() == snapP && snapIRI == activity.GetJSONLDId().Get() && snapP.Len() == lenv(snapV, snapP) + 1 && snapP.At(0).IsIRI() && snapP.At(0).GetIRI() == snapIRI && (forall j Int :: {snapP.At(j)} 1 <= j && j < snapP.Len() ==> snapP.At(j) == atv(snapV, snapP, j - 1))
-//@ [C05] ensures stored_and_listed_once: err == nil ==> nSetOutbox == old(nSetOutbox) + 1 && nCreate == old(nCreate) + 1 && lastCreated == activity
+//@ [C05,C16] ensures stored_and_listed_once: err == nil ==> nSetOutbox == old(nSetOutbox) + 1 && nCreate == old(nCreate) + 1 && lastCreated == activity
 //@ [C05] ensures at_most_once: nSetOutbox <= old(nSetOutbox) + 1
 
 //@ func (*pub.sideEffectActor).addToInboxIfNew
@@ -913,6 +923,7 @@ package pub
 
 //@ func (pub.SocialWrappedCallbacks).block
 //@ params w, c, a
+//@ [C16] ensures marks_the_activity_undeliverable: deref(w.undeliverable)
 //@ [C11] requires w.db != nil && w.outboxIRI != nil && w.undeliverable != nil && a != nil && w.newTransport != nil && w.clock != nil
 //@ [C09] requires unlocked: held == emp
 //@ [C09] ensures unlocked: held == emp
